@@ -640,6 +640,8 @@ def _class_names(c):
         for x in c.items:
             out.extend(_class_names(x))
         return out
+    if isinstance(c, VModel) and c.name in ("type", "str", "int", "list", "dict"):
+        return [c.name]          # a builtin type that is also modelled as a callable
     raise Unsupported("class spec %r" % (c,))
 
 
